@@ -799,8 +799,37 @@ def _any_in(s, cs):
     return b_or(*[b_and((i < ln) if isinstance(ln, int) else z3.UGT(ln, z3.BitVecVal(i, 64)), _byte_in(bs[i], cs)) for i in range(cap)])
 
 
+def _closure_pat(ex, hay, clo, how):
+    """`s.contains(|c| ..)` / starts_with / ends_with with a predicate on chars: the predicate's MIR is run on each
+    character of a concrete string (a rule key, a literal)"""
+    s = as_str(hay)
+    if not isinstance(s, (bytes, bytearray)):
+        bs, ln, cap = S.parts(s)
+        if not (isinstance(ln, int) and all(isinstance(b, int) for b in bs[:ln])):
+            raise Unsupported('char predicate pattern on a symbolic string')
+        s = bytes(bs[:ln])
+    try:
+        chars = s.decode('utf-8')
+    except UnicodeDecodeError:
+        raise Unsupported('char predicate pattern on bytes that are not UTF-8')
+    if how == 'starts_with':
+        chars = chars[:1]
+    elif how == 'ends_with':
+        chars = chars[-1:]
+    hits = []
+    for ch in chars:
+        r = ex.call_closure(clo, [BV(ord(ch), 'char')])
+        if r is True:
+            return True
+        if r is not False:
+            hits.append(r)
+    return b_or(*hits) if hits else False
+
+
 @model(r'^core::str::<impl str>::contains::<')
 def m_contains(ex, callee, args):
+    if isinstance(deref_all(args[1]), Closure):
+        return _closure_pat(ex, args[0], deref_all(args[1]), 'contains')
     p = _pat(ex, args[1])
     if isinstance(p, CharSet):
         return _any_in(as_str(args[0]), p)
